@@ -1,37 +1,56 @@
 import SkyllhModel.Proto
 import SkyllhModel.Model.Grid
+import SkyllhModel.Model.GridObj
 import SkyllhModel.Generated.C15
-open Proto Grid
+open Proto Grid RoundOps
 
-/-  requests (floats as IEEE bit patterns, `-` = empty list, `ERR` = Python exception):
+/-  requests (floats as IEEE bit patterns, `-` = empty list, `ERR` = Python exception, state id `N` = None).
+    Every answer ends with ` #<tag>,<tag>,…` (or ` #-`): the branches of the model functions the request went
+    through; the harness strips and counts them (zero-hit branches are listed in the evidence).
+
       mk     <g0> <delta> <dec>                 -> <lb> <delta>
-      ctor   <g0> <delta> <dec:int>             -> <lb> <delta> | ERR   (argument checks of __init__)
+      ctor   <g0> <delta> <dec:int>             -> <lb> <delta> | ERR          (argument checks of __init__)
+      auto   <g0> <delta>                       -> <dec> <lb> <delta> | <dec> ERR   (decimals=None)
       round  <lb> <delta> <dec> <v>             -> <lower> <upper> <nearest> <kLower> <kNearest> <gp kLower> <gp kUpper> <gp kNearest>
       rounds <lb> <delta> <dec> <vs>            -> the same eight answers as lists
       grid   <g0> <delta> <dec> <arr>           -> <lb> <delta> <grid>
       extra  <lb> <delta> <dec> <grid>          -> <lb'> <grid'> | ERR
+      obj    <arr> <delta> <dec:int> <ops>      -> state after the constructor and after every operation, `;`-separated:
+                                                   `<lb>|<delta>|<grid>` or ERR (raising operation, object unchanged);
+                                                   ops: `x` extra bins, `l:<x>` lower_bound setter, `g:<arr>` grid setter
       decs   <x>                                -> <n>
+      arange <start> <stop> <step>              -> <list>
+      frange <start> <stop> <delta>             -> <list>                      (array built by from_range)
+      mkirr  <arr>                              -> OK | ERR
       irr    <grid> <v>                         -> <nearest|ERR> <lower|ERR> <upper|ERR>
+      irra   <grid> <vs>                        -> <nearest list|ERR> <lower list|ERR> <upper list|ERR>   (array arguments)
       irrx   <grid>                             -> <grid'> | ERR
       lin    <x0> <x1> <M0> <M1> <x>            -> <value> <grad>
       par    <x1> <dx> <M0> <M1> <M2> <x>       -> <value> <grad>
       bc     <xs> <ns>                          -> <list> | ERR
       linrun <lb> <delta> <dec> <ns> <table> <calls>  -> per call `<values>:<grads>` or ERR, `;`-separated, then ` store-same|store-changed`
-         (the table is the store of arrays owned by the manifold function; post-store vs pre-store)
-      parrun <lb> <delta> <dec> <ns> <table> <calls>
-         table = `sid:gridparams:values;…`, calls = `sid:xs;…`
+      parrun <lb> <delta> <dec> <ns> <table> <calls>     table = `sid:gridparams:values;…`, calls = `sid:xs;…`
+      null   <grids> <params> <n>               -> <rounded columns `;`> <grads: D rows `;`>      grids = `lb,delta,dec;…`, params = columns `;`
+      prod   <grids `;`>                        -> tuples `;`
+      pdfset <names `,`> <grids `;`> <lookups `;`>  -> ERR | per lookup the registered tuple or MISS, `;`   lookup = `name=bits&name=bits`
+      keyeq  <dict> <dict>                      -> 1 | 0                        dict = `name=bits&…`
 -/
+
+abbrev Tagged := String × List String
 
 def pG (lb d dec : String) : PGrid Float := ⟨pF lb, pF d, pN dec, Gen.C15.floatDDecimals⟩
 
 def fO (o : Option Float) : String := match o with | some x => fF x | none => "ERR"
+def fOL (o : Option (List Float)) : String := match o with | some x => fListD fF x | none => "ERR"
 
 def semis (s : String) : List String := if s == "-" then [] else s.splitOn ";"
+
+def pSid (s : String) : Option Int := if s == "N" then none else some (pI s)
 
 def pStore (s : String) : Store Float :=
   (semis s).filterMap fun e =>
     match e.splitOn ":" with
-    | [sid, g, v] => some ((pI sid, pList pF g), pList pF v)
+    | [sid, g, v] => some ((pSid sid, pList pF g), pList pF v)
     | _ => none
 
 def fStore (pre post : Store Float) : String :=
@@ -39,9 +58,9 @@ def fStore (pre post : Store Float) : String :=
   let bits (st : Store Float) := st.map fun e => (e.1.1, e.1.2.map Float.toBits, e.2.map Float.toBits)
   if bits pre == bits post then "store-same" else "store-changed"
 
-def pCalls (s : String) : List (Int × List Float) :=
+def pCalls (s : String) : List (Option Int × List Float) :=
   (semis s).filterMap fun e => match e.splitOn ":" with
-    | [sid, xs] => some (pI sid, pList pF xs)
+    | [sid, xs] => some (pSid sid, pList pF xs)
     | _ => none
 
 def fRes (rs : List (Option (List Float × List Float))) : String :=
@@ -49,54 +68,223 @@ def fRes (rs : List (Option (List Float × List Float))) : String :=
     | some (v, g) => s!"{fListD fF v}:{fListD fF g}"
     | none => "ERR")
 
-def answer (line : String) : String :=
+def pDict (s : String) : List (String × Float) :=
+  if s == "-" then [] else (s.splitOn "&").filterMap fun e => match e.splitOn "=" with
+    | [n, v] => some (n, pF v)
+    | _ => none
+
+/-! ### branch tags (recomputed from the same conditions the model functions test) -/
+
+def rintTag (pre : String) (x : Float) : String :=
+  let n := floorI x
+  let d := x - ofI n
+  if d < (half : Float) then pre ++ ":below-half" else if (half : Float) < d then pre ++ ":above-half"
+  else if n % 2 = 0 then pre ++ ":tie-even" else pre ++ ":tie-odd"
+
+def roundTags (G : PGrid Float) (v : Float) : List String :=
+  let f := floatD G v
+  let fr := mod1 f
+  [rintTag "floatD-rint" ((v - G.lb) / G.delta * p10 G.fd),
+   rintTag "nearest-rint" fr,
+   if intD G v < 0 then "intD:negative" else "intD:nonnegative",
+   if rintI ((v - G.lb) / G.delta * p10 G.fd) = 0 then "rint:zero-result" else "rint:nonzero-result",
+   if rintI fr = 0 then "nearest:lower" else "nearest:upper"] ++
+  (if roundNearest G v == 0.0 then [if (roundNearest G v).toBits == (0.0 : Float).toBits then "zero-member:+0.0" else "zero-member:-0.0"] else [])
+
+def ctorTag (delta : Float) (dec : Int) : String :=
+  if dec < 0 then "ctor:negative-decimals"
+  else if (Gen.C15.maxDecimals : Int) < dec then "ctor:too-many-decimals"
+  else if (0.0 : Float) < aroundDec dec.toNat delta then "ctor:ok" else "ctor:delta-not-positive"
+
+def decsTag (n : Nat) : String := if n = 0 then "decs:0" else if n = 16 then "decs:16" else "decs:1-15"
+
+def dedup (l : List String) : List String := l.foldl (fun acc t => if acc.contains t then acc else acc ++ [t]) []
+
+def linCallTag (G : PGrid Float) (Mf : Option Int → List Float → List Float) (ns : List Nat)
+    (cache : Option (LinCache Float)) (sid : Option Int) (xs : List Float) : String :=
+  let x0 := xs.map (roundLower G)
+  let freshTag := match broadcast x0 ns with
+    | none => "lin:raise-wrong-length"
+    | some _ => match linCompute G Mf ns sid xs with
+      | none => "lin:raise-manifold-length"
+      | some _ => "ok"
+  match cache with
+  | none => if freshTag == "ok" then "lin:first-call" else freshTag
+  | some c =>
+    if sid.isNone then (if freshTag == "ok" then "lin:no-state-id" else freshTag)
+    else if c.sid != sid then (if freshTag == "ok" then "lin:miss-state-change" else freshTag)
+    else if c.x0 == x0 then (match broadcast xs ns with | some _ => "lin:hit" | none => "lin:hit-raise")
+    else (if freshTag == "ok" then "lin:miss-other-cell" else freshTag)
+
+def parCallTag (G : PGrid Float) (Mf : Option Int → List Float → List Float) (ns : List Nat)
+    (cache : Option (ParCache Float)) (sid : Option Int) (xs : List Float) : String :=
+  let x1 := xs.map (roundNearest G)
+  match broadcast (List.zipWith (· - ·) xs x1) ns with
+  | none => "par:raise-wrong-length"
+  | some _ =>
+    let freshTag := match parCompute G Mf ns sid xs with
+      | none => "par:raise-manifold-length"
+      | some _ => "ok"
+    match cache with
+    | none => if freshTag == "ok" then "par:first-call" else freshTag
+    | some c =>
+      if sid.isNone then (if freshTag == "ok" then "par:no-state-id" else freshTag)
+      else if c.sid != sid then (if freshTag == "ok" then "par:miss-state-change" else freshTag)
+      else match bcastEq c.x1 x1 with
+        | none => "par:cache-test-raises"
+        | some true => if c.x1.length = x1.length then "par:hit" else "par:hit-shared-vs-per-source"
+        | some false => if freshTag == "ok" then
+            (if c.x1.length = x1.length then "par:miss-other-cell" else "par:miss-shared-vs-per-source") else freshTag
+
+def linRunTags (G : PGrid Float) (Mf : Option Int → List Float → List Float) (ns : List Nat) :
+    Option (LinCache Float) → List (Option Int × List Float) → List String
+  | _, [] => []
+  | cache, (sid, xs) :: rest =>
+    linCallTag G Mf ns cache sid xs :: linRunTags G Mf ns (linCall G Mf ns cache sid xs).1 rest
+
+def parRunTags (G : PGrid Float) (Mf : Option Int → List Float → List Float) (ns : List Nat) :
+    Option (ParCache Float) → List (Option Int × List Float) → List String
+  | _, [] => []
+  | cache, (sid, xs) :: rest =>
+    parCallTag G Mf ns cache sid xs :: parRunTags G Mf ns (parCall G Mf ns cache sid xs).1 rest
+
+def fObj (o : PGObj Float) : String := s!"{fF o.G.lb}|{fF o.G.delta}|{fListD fF o.grid}"
+
+def pOp (s : String) : Option (PGOp Float) :=
+  if s == "x" then some .extra
+  else match s.splitOn ":" with
+    | ["l", x] => some (.setLowerBound (pF x))
+    | ["g", arr] => some (.setGrid (pList pF arr))
+    | _ => none
+
+def objRun (o : PGObj Float) : List (PGOp Float) → List String × List String
+  | [] => ([], [])
+  | op :: rest =>
+    let tag := match op with | .extra => "obj:extra" | .setLowerBound _ => "obj:set-lower-bound" | .setGrid _ => "obj:set-grid"
+    match o.step op with
+    | some o' => let r := objRun o' rest; (fObj o' :: r.1, tag :: r.2)
+    | none => let r := objRun o rest; ("ERR" :: r.1, (tag ++ "-raises") :: r.2)
+
+def pGrids (s : String) : List (PGrid Float) :=
+  (semis s).filterMap fun e => match e.splitOn "," with
+    | [lb, d, dec] => some (pG lb d dec)
+    | _ => none
+
+def answer (line : String) : Tagged :=
   match tokens line with
   | ["mk", g0, d, dec] =>
       let G := mkGrid (pF g0) (pF d) (pN dec) Gen.C15.floatDDecimals
-      s!"{fF G.lb} {fF G.delta}"
+      (s!"{fF G.lb} {fF G.delta}", [])
   | ["ctor", g0, d, dec] =>
-      match mkGridChecked (pF g0) (pF d) (pI dec) Gen.C15.floatDDecimals Gen.C15.maxDecimals with
-      | some G => s!"{fF G.lb} {fF G.delta}"
-      | none => "ERR"
+      (match mkGridChecked (pF g0) (pF d) (pI dec) Gen.C15.floatDDecimals Gen.C15.maxDecimals with
+        | some G => s!"{fF G.lb} {fF G.delta}"
+        | none => "ERR", [ctorTag (pF d) (pI dec)])
+  | ["auto", g0, d] =>
+      let dec := decimalsAuto floatToRat (pF g0) (pF d)
+      (match mkGridAuto floatToRat (pF g0) (pF d) Gen.C15.floatDDecimals Gen.C15.maxDecimals with
+        | some G => s!"{dec} {fF G.lb} {fF G.delta}"
+        | none => s!"{dec} ERR", [ctorTag (pF d) dec, decsTag (decimalsOf (floatToRat (pF g0))), decsTag (decimalsOf (floatToRat (pF d)))])
   | ["round", lb, d, dec, v] =>
       let G := pG lb d dec
       let x := pF v
-      s!"{fF (roundLower G x)} {fF (roundUpper G x)} {fF (roundNearest G x)} {kLower G x} {kNearest G x} {fF (gp G (kLower G x))} {fF (gp G (kUpper G x))} {fF (gp G (kNearest G x))}"
+      (s!"{fF (roundLower G x)} {fF (roundUpper G x)} {fF (roundNearest G x)} {kLower G x} {kNearest G x} {fF (gp G (kLower G x))} {fF (gp G (kUpper G x))} {fF (gp G (kNearest G x))}",
+       roundTags G x)
   | ["rounds", lb, d, dec, vs] =>
       let G := pG lb d dec
       let xs := pList pF vs
       let fI := fun (k : Int) => toString k
-      s!"{fListD fF (xs.map (roundLower G))} {fListD fF (xs.map (roundUpper G))} {fListD fF (xs.map (roundNearest G))} {fListD fI (xs.map (kLower G))} {fListD fI (xs.map (kNearest G))} {fListD fF (xs.map fun x => gp G (kLower G x))} {fListD fF (xs.map fun x => gp G (kUpper G x))} {fListD fF (xs.map fun x => gp G (kNearest G x))}"
+      (s!"{fListD fF (xs.map (roundLower G))} {fListD fF (xs.map (roundUpper G))} {fListD fF (xs.map (roundNearest G))} {fListD fI (xs.map (kLower G))} {fListD fI (xs.map (kNearest G))} {fListD fF (xs.map fun x => gp G (kLower G x))} {fListD fF (xs.map fun x => gp G (kUpper G x))} {fListD fF (xs.map fun x => gp G (kNearest G x))}",
+       dedup (xs.flatMap (roundTags G)) ++ [if xs.isEmpty then "rounds:empty" else "rounds:nonempty"])
   | ["grid", g0, d, dec, arr] =>
       let G := mkGrid (pF g0) (pF d) (pN dec) Gen.C15.floatDDecimals
-      s!"{fF G.lb} {fF G.delta} {fListD fF (buildGrid G (pList pF arr))}"
+      (s!"{fF G.lb} {fF G.delta} {fListD fF (buildGrid G (pList pF arr))}", [])
   | ["extra", lb, d, dec, grid] =>
-      match addExtra (pG lb d dec) (pList pF grid) with
-      | some (G', g') => s!"{fF G'.lb} {fListD fF g'}"
-      | none => "ERR"
-  | ["decs", x] => toString (decimalsOf (floatToRat (pF x)))
+      (match addExtra (pG lb d dec) (pList pF grid) with
+        | some (G', g') => s!"{fF G'.lb} {fListD fF g'}"
+        | none => "ERR", [if (pList pF grid).isEmpty then "addExtra:empty" else "addExtra:ok"])
+  | ["obj", arr, d, dec, ops] =>
+      (match PGObj.new (pList pF arr) (pF d) (pI dec) Gen.C15.floatDDecimals Gen.C15.maxDecimals with
+        | none => ("ERR", ["obj:ctor-raises"])
+        | some o =>
+          let r := objRun o ((semis ops).filterMap pOp)
+          (String.intercalate ";" (fObj o :: r.1), "obj:ctor-ok" :: dedup r.2))
+  | ["decs", x] =>
+      let n := decimalsOf (floatToRat (pF x))
+      (toString n, [decsTag n])
+  | ["arange", a, b, c] =>
+      let l := arange (pF a) (pF b) (pF c)
+      (fListD fF l, [if l.length = 0 then "arange:n=0" else if l.length = 1 then "arange:n=1" else "arange:n>=2"])
+  | ["frange", a, b, c] =>
+      let l := fromRangeArr (pF a) (pF b) (pF c)
+      (fListD fF l, [if l.length ≤ 1 then "arange:n<=1" else "arange:n>=2"])
+  | ["mkirr", arr] =>
+      (match mkIrr (pList pF arr) with
+        | some _ => ("OK", ["mkIrr:ok"])
+        | none => ("ERR", ["mkIrr:not-increasing"]))
   | ["irr", grid, v] =>
       let g := pList pF grid
       let x := pF v
-      s!"{fO (irrNearest g x)} {fO (irrLower g x)} {fO (irrUpper g x)}"
-  | ["irrx", grid] => match irrAddExtra (pList pF grid) with
-      | some g' => fListD fF g'
-      | none => "ERR"
+      (s!"{fO (irrNearest g x)} {fO (irrLowerC g x)} {fO (irrUpper g x)}",
+       [if (irrLowerC g x).isNone then "irrLower:below-first" else "irrLower:ok",
+        if (irrUpper g x).isNone then "irrUpper:at-or-above-last" else "irrUpper:ok",
+        if ssLeft (irrMids g) x = 0 then "irrNearest:first" else if ssLeft (irrMids g) x + 1 = g.length then "irrNearest:last" else "irrNearest:inner"])
+  | ["irra", grid, vs] =>
+      let g := pList pF grid
+      let xs := pList pF vs
+      (s!"{fOL (irrNearestArr g xs)} {fOL (irrLowerArr g xs)} {fOL (irrUpperArr g xs)}",
+       [if (irrLowerArr g xs).isNone then "irrLowerArr:raises" else "irrLowerArr:ok",
+        if (irrUpperArr g xs).isNone then "irrUpperArr:raises" else "irrUpperArr:ok",
+        if xs.isEmpty then "irrArr:empty" else "irrArr:nonempty"])
+  | ["irrx", grid] =>
+      (match irrAddExtra (pList pF grid) with
+        | some g' => (fListD fF g', ["irrAddExtra:ok"])
+        | none => ("ERR", ["irrAddExtra:fewer-than-two-points"]))
   | ["lin", x0, x1, m0, m1, x] =>
-      s!"{fF (lineValue (pF x0) (pF x1) (pF m0) (pF m1) (pF x))} {fF (lineGrad (pF x0) (pF x1) (pF m0) (pF m1))}"
+      (s!"{fF (lineValue (pF x0) (pF x1) (pF m0) (pF m1) (pF x))} {fF (lineGrad (pF x0) (pF x1) (pF m0) (pF m1))}", [])
   | ["par", x1, dx, m0, m1, m2, x] =>
-      s!"{fF (parValue (pF x1) (pF dx) (pF m0) (pF m1) (pF m2) (pF x))} {fF (parGrad (pF x1) (pF dx) (pF m0) (pF m1) (pF m2) (pF x))}"
-  | ["bc", xs, ns] => match broadcast (pList pF xs) (pList pN ns) with
-      | some l => fListD fF l
-      | none => "ERR"
+      (s!"{fF (parValue (pF x1) (pF dx) (pF m0) (pF m1) (pF m2) (pF x))} {fF (parGrad (pF x1) (pF dx) (pF m0) (pF m1) (pF m2) (pF x))}", [])
+  | ["bc", xs, ns] =>
+      let l := pList pF xs
+      (match broadcast l (pList pN ns) with
+        | some r => fListD fF r
+        | none => "ERR",
+       [if l.length = 1 then "broadcast:shared" else if l.length = (pList pN ns).length then "broadcast:per-source" else "broadcast:wrong-length"])
   | ["linrun", lb, d, dec, ns, table, calls] =>
       let st := pStore table
-      let r := linRunS (pG lb d dec) (pList pN ns) st none (pCalls calls)
-      s!"{fRes r.2} {fStore st r.1}"
+      let G := pG lb d dec
+      let r := linRunS G (pList pN ns) st none (pCalls calls)
+      (s!"{fRes r.2} {fStore st r.1}", dedup (linRunTags G st.get (pList pN ns) none (pCalls calls)))
   | ["parrun", lb, d, dec, ns, table, calls] =>
       let st := pStore table
-      let r := parRunS (pG lb d dec) (pList pN ns) st none (pCalls calls)
-      s!"{fRes r.2} {fStore st r.1}"
-  | _ => "bad-op"
+      let G := pG lb d dec
+      let r := parRunS G (pList pN ns) st none (pCalls calls)
+      (s!"{fRes r.2} {fStore st r.1}", dedup (parRunTags G st.get (pList pN ns) none (pCalls calls)))
+  | ["null", grids, params, n] =>
+      let Gs := pGrids grids
+      let cols := (semis params).map (pList pF)
+      let r := nullSpec Gs (fun _ _ => List.replicate (pN n) 1.0) none cols
+      (s!"{String.intercalate ";" ((nullGridParams Gs cols).map (fListD fF))} {String.intercalate ";" (r.2.map (fListD fF))}",
+       [if Gs.length = 1 then "null:D=1" else "null:D>=2"])
+  | ["prod", grids] =>
+      let gs := (semis grids).map (pList pF)
+      (String.intercalate ";" ((gridProduct gs).map (fListD fF)), [if gs.length = 1 then "product:D=1" else "product:D>=2"])
+  | ["pdfset", names, grids, lookups] =>
+      let nm := names.splitOn ","
+      let gs := (semis grids).map (pList pF)
+      (match pdfAddAll (fun d => d.map (·.2)) ([] : PDFSetM Float (List Float)) (permutationDicts nm gs) with
+        | none => ("ERR", ["pdfAdd:already-added"])
+        | some s =>
+          let res := (semis lookups).map fun l => match pdfGet s (pDict l) with
+            | some t => fListD fF t
+            | none => "MISS"
+          (String.intercalate ";" res, ["pdfAdd:ok"] ++ dedup (res.map fun r => if r == "MISS" then "pdfGet:miss" else "pdfGet:hit")))
+  | ["keyeq", d1, d2] =>
+      let r := keyEq (pDict d1) (pDict d2)
+      (fB r, [if r then "keyEq:equal" else "keyEq:different"])
+  | _ => ("bad-op", [])
 
-def main : IO Unit := do loop (← IO.getStdin) answer
+def answerS (line : String) : String :=
+  let r := answer line
+  r.1 ++ " #" ++ (if r.2.isEmpty then "-" else String.intercalate "," r.2)
+
+def main : IO Unit := do loop (← IO.getStdin) answerS
